@@ -20,7 +20,7 @@ class RandomBehaviour:
     schedule (needed for C04; harmless elsewhere)."""
 
     def __init__(self, seed, tb_next=(1, 2, 3), ev_next=(None, None, 1, 2), p_event=0.6, p_future=0.2,
-                 future=(0, 1, 2), sparse_pers=False, p_none=0.0, recur=0, p_extra=0.0):
+                 future=(0, 1, 2), sparse_pers=False, p_none=0.0, recur=0, p_extra=0.0, jump=0, p_time_echo=0.0):
         self.seed = seed
         self.tb_next = tb_next
         self.ev_next = ev_next
@@ -28,6 +28,8 @@ class RandomBehaviour:
         self.p_future = p_future
         self.future = future
         self.sparse_pers = sparse_pers
+        self.jump = jump  # > 0: every simulator's FIRST step returns time + jump as its next step (the rest of the run happens at large times)
+        self.p_time_echo = p_time_echo  # probability that a get_data reply carries 'time' = the step time (as a fresh int object)
         self.p_extra = p_extra  # probability that a get_data reply also contains an attribute / an entity nobody asked for
         self.recur = recur  # > 0: persistent values RECUR with this period (v, w, v, ...) instead of being unique per step
         self.p_none = p_none  # probability that a produced value is None / falsy / a list / a dict (legal values, not "no output")
@@ -43,6 +45,8 @@ class RandomBehaviour:
         r = self.rng(p.sid, p.kind, p.k)
         if p.kind == "step":
             t = p.args[0]
+            if self.jump and p.k == 1:
+                return Reply(t + self.jump)
             if typ == "time-based":
                 return Reply(t + r.choice(self.tb_next))
             off = r.choice(self.ev_next)
@@ -68,6 +72,8 @@ class RandomBehaviour:
             data[eid] = d
         if typ != "time-based" and not any_pers and r.random() < self.p_future:
             data["time"] = t + r.choice(self.future)
+        if self.p_time_echo and "time" not in data and self.rng(p.sid, "echo", p.k).random() < self.p_time_echo:
+            data["time"] = int(str(t))  # the optional output time, equal to the step time (legal; an equal but distinct int object)
         if self.p_extra:
             rx = self.rng(p.sid, "extra", p.k)
             if rx.random() < self.p_extra and data:
